@@ -54,7 +54,7 @@ def h2_pressure(seed):
 
     HS.tolerate_empty_data_at_negative_window()
     sess = H2.H2Session([], policy=policy, seed=seed, client_settings={h2.settings.SettingCodes.INITIAL_WINDOW_SIZE: 0},
-                        app=make_app)
+                        app=make_app, worker=rng.choice(["asyncio", "trio"]))
     sess.auto_ack = False
     desc = {"seed": seed, "m": m, "nmsgs": nmsgs, "where": where, "release": release, "policy": policy}
     failures = []
